@@ -536,6 +536,14 @@ func storesParamIntoKey(i ssa.Instruction, key *ssa.Parameter, depth int, keySli
 			// varargs slice for append(node.Key, key): see the append below
 		}
 	case *ssa.Call:
+		// slices.Insert(node.Key, i, key): the values follow the index
+		if n, ok := stdSliceOp(x); ok && n == "slices.Insert" && len(x.Call.Args) == 3 && isKeySlice(x.Call.Args[0]) {
+			for _, v := range varargValues(x.Call.Args[2]) {
+				if ir.ResolveCell(ir.Strip(v)) == ssa.Value(key) {
+					return true
+				}
+			}
+		}
 		if b, ok := x.Call.Value.(*ssa.Builtin); ok && b.Name() == "append" && len(x.Call.Args) == 2 {
 			if isKeySlice(x.Call.Args[0]) {
 				for _, v := range varargValues(x.Call.Args[1]) {
